@@ -227,6 +227,52 @@ def u2(rep, f):
                 rep.ok("U2", key)
 
 
+def u7(rep, f):
+    """typeInferTForms() skips a symbol-table level whose `isChecked` flag is set.  The file level stays open for the whole
+    interactive session, so the flag must be false again whenever a step's type inference starts -- including the step after a
+    REJECTED one (otherwise the types first mentioned by the next form are never imported and a valid form is refused).  On the
+    CFGs of the two loop drivers and of compFileFront: between the type-inference phase of one step and that of the next the
+    store `...->isChecked = false` lies on every path -- around the driver's loop, or between compFileFront's entry and the
+    phase, or between the phase and EVERY exit of compFileFront (the error exits too)."""
+    def clears(n):
+        if n["k"] == "BinaryOperator" and n["op"] == "=":
+            l = strip(n["c"][0])
+            return l is not None and l["k"] == "MemberExpr" and l["n"] == "isChecked" and const_value(n["c"][1]) == 0
+        return False
+    front = f.func("compFileFront")
+    cf = common.CFG(front)
+    ti = cf.events(is_call("compPhaseTInfer"))
+    if len(ti) != 1:
+        raise AnalysisBroken("compFileFront: expected one call of compPhaseTInfer, found %d" % len(ti))
+    tb, tj, tnode = ti[0]
+    front_pre = cf.path_avoiding(cf.entry, lambda n: n["id"] == tnode["id"], clears, src_idx=-1) is None
+    front_post = cf.path_avoiding(tb, None, clears, src_idx=tj) is None
+    # exits of compFileFront taken before the phase (syntax errors, ...) leave the flag as the previous step left it: they
+    # are covered only by front_pre or by the driver
+    for fname in ("compGLoopEval", "compInteractiveLoop"):
+        fn = f.func(fname)
+        cfg = common.CFG(fn)
+        ff = cfg.events(is_call("compFileFront"))
+        if len(ff) != 1:
+            raise AnalysisBroken("%s: expected one call of compFileFront" % fname)
+        b, j, node = ff[0]
+        around = cfg.path_avoiding(b, lambda n, node=node: n["id"] == node["id"], clears, src_idx=j) is None
+        first = cfg.path_avoiding(cfg.entry, lambda n, node=node: n["id"] == node["id"], clears, src_idx=-1) is None
+        key = "%s:type-forms-rechecked-each-step" % fname
+        where = "axlcomp.c:%d (%s)" % (node["l"], fname)
+        if front_pre or (around and first) or (around and front_post):
+            rep.ok("U7", key, sample={"in the driver loop": around, "before the phase in compFileFront": front_pre})
+        elif around or front_post:
+            rep.ok("U7", key, sample={"in the driver loop": around, "after the phase on every exit": front_post})
+        else:
+            rep.violation("U7", key, where,
+                          "a path leads from the type-inference phase of one step to that of the next without `isChecked = false` "
+                          "for the file level (not around the loop of %s, not before the phase in compFileFront, and not on every "
+                          "exit after it -- the error exits return first): after a step rejected by type inference the next "
+                          "step's type forms are not inferred, so a valid form that brings a new type is refused in the loop while "
+                          "the batch compiler accepts it" % fname)
+
+
 def u5(rep):
     """Undo of a rejected step in scope binding: scobindRestoreDeclInfo forgets the uses (define / assign / declare marks) that the
     rejected step left on identifiers that existed before.  A form rejected during scope binding never reaches type inference,
@@ -459,6 +505,7 @@ def run(tier, only=None):
     u4(rep)
     u5(rep)
     u6(rep)
+    u7(rep, f)
     rep.analysed_count("functions", 3)
     rep.assumptions.append("the CFG search is path-insensitive except for the fintMode == FINT_LOOP assumption in U1")
     return rep
